@@ -131,4 +131,22 @@ MUTANTS = [
     ("c12-dispatch-as-match", "C12", [("ragc-core/src/tuple_packing.rs", 1, "    if max_elem < 4 {\n        pack_tuples::<4, 4>(bytes)\n    } else if max_elem < 6 {\n        pack_tuples::<3, 6>(bytes)\n    } else if max_elem < 16 {\n        pack_tuples::<2, 16>(bytes)\n    } else {", "    match max_elem {\n        0..=3 => pack_tuples::<4, 4>(bytes),\n        4 | 5 => pack_tuples::<3, 6>(bytes),\n        6..=15 => pack_tuples::<2, 16>(bytes),\n        _ => {"), ("ragc-core/src/tuple_packing.rs", 1, "        result.push(0x10); // Marker: no packing\n        result\n    }", "        result.push(0x10); // Marker: no packing\n        result\n    }}")], "quiet", ""),
     ("c12-dispatch-match-4to6", "C12", [("ragc-core/src/tuple_packing.rs", 1, "    if max_elem < 4 {\n        pack_tuples::<4, 4>(bytes)\n    } else if max_elem < 6 {\n        pack_tuples::<3, 6>(bytes)\n    } else if max_elem < 16 {\n        pack_tuples::<2, 16>(bytes)\n    } else {", "    match max_elem {\n        0..=3 => pack_tuples::<4, 4>(bytes),\n        4..=6 => pack_tuples::<3, 6>(bytes),\n        7..=15 => pack_tuples::<2, 16>(bytes),\n        _ => {"), ("ragc-core/src/tuple_packing.rs", 1, "        result.push(0x10); // Marker: no packing\n        result\n    }", "        result.push(0x10); // Marker: no packing\n        result\n    }}")], "fire", "C12-TP1"),
     ("c08-list-contigs-early-exit", "C08", [("ragc-core/src/decompressor.rs", 1, "                    .load_contig_batch(&mut self.archive, batch_id)?;\n", "                    .load_contig_batch(&mut self.archive, batch_id)?;\n                if self.collection.get_no_contigs(sample_name).is_some() {\n                    break;\n                }\n")], "fire", "C08-H6"),
+    # ---- seeds found by sub-agents (condensed) and benign twins
+    ("c09-nrun-no-budget-reset", "C09", [(L, 1, "                    i += nrun_len as usize;\n                    no_prev_literals = 0;", "                    i += nrun_len as usize;")], "fire", "C09-BACK"),
+    ("c09-match-no-budget-reset", "C09", [(L, 1, "                i += total_len as usize;\n                no_prev_literals = 0;", "                i += total_len as usize;")], "fire", "C09-BACK"),
+    ("c09-reset-reordered", "C09", [(L, 1, "                    i += nrun_len as usize;\n                    no_prev_literals = 0;", "                    no_prev_literals = 0;\n                    i += nrun_len as usize;")], "quiet", ""),
+    ("c10-final-front-by-start", "C10", [(S, 2, "                if front_kmer == MISSING_KMER {", "                if segment_start == 0 {")], "fire", "C10-S2"),
+    ("c10-rename-locals", "C10", [(S, "re", r"\bsegment_start\b", "seg_begin"), (S, "re", r"\bnew_start\b", "ns"), (S, "re", r"\bkmer_value\b", "kv"), (S, "re", "let mut front_kmer =", "let mut carried ="), (S, "re", "front_kmer ==", "carried =="), (S, "re", r"\(front_kmer,", "(carried,"), (S, "re", "front_kmer = kv", "carried = kv"), (S, "re", r"front_kmer\.to_string", "carried.to_string"), (S, "re", r"(?m)^( {16,})front_kmer,", r"\1carried,")], "quiet", ""),
+    ("c11-named-no-clear-on-n", "C11", [(SP, 1, "            kmer.reset();\n            recent_kmers.clear();", "            kmer.reset();")], "fire", "C11-P4"),
+    ("c17-prefix-sorted", "C17", [(D, 1, "        self.list_samples()\n            .into_iter()\n            .filter(|s| s.starts_with(prefix))", "        self.collection.get_samples_list(true)\n            .into_iter()\n            .filter(|s| s.starts_with(prefix))")], "fire", "C17-R4"),
+    ("c18-keymask-gt-32", "C18", [(L, 1, "        let key_mask = if key_len >= 32 {", "        let key_mask = if key_len > 32 {")], "fire", "C18-O"),
+    ("c19-skip-short-lines", "C19", [(G, 1, "                // Append sequence data\n", "                if bytes_read <= 2 {\n                    continue;\n                }\n")], "fire", "C19-G3"),
+    ("c16-skip-short-lines", "C16", [(G, 1, "                // Append sequence data\n", "                if bytes_read <= 2 {\n                    continue;\n                }\n")], "fire", "C16-LINE"),
+    ("c16-name-run-reset-0", "C16", [(C, 1, "                            enc.push((-cnt) as u8); // Repetition marker\n                            cnt = 1;", "                            enc.push((-cnt) as u8); // Repetition marker\n                            cnt = 0;")], "fire", "C16-NAME"),
+    ("c15-footer-one-write-no-flush", "C15", [(R, 1, "        writer.write_all(&footer)?;\n\n        // Write footer size as fixed 8-byte value\n        let footer_size = footer.len() as u64;\n        writer.write_all(&footer_size.to_le_bytes())?;\n\n        writer.flush()?;", "        let footer_size = footer.len() as u64;\n        footer.extend_from_slice(&footer_size.to_le_bytes());\n        writer.write_all(&footer)?;\n")], "fire", "C15-E2"),
+    ("c15-footer-one-write-flush", "C15", [(R, 1, "        writer.write_all(&footer)?;\n\n        // Write footer size as fixed 8-byte value\n        let footer_size = footer.len() as u64;\n        writer.write_all(&footer_size.to_le_bytes())?;\n", "        let footer_size = footer.len() as u64;\n        footer.extend_from_slice(&footer_size.to_le_bytes());\n        writer.write_all(&footer)?;\n")], "quiet", ""),
+    ("c13-footer-one-write-flush", "C13", [(R, 1, "        writer.write_all(&footer)?;\n\n        // Write footer size as fixed 8-byte value\n        let footer_size = footer.len() as u64;\n        writer.write_all(&footer_size.to_le_bytes())?;\n", "        let footer_size = footer.len() as u64;\n        footer.extend_from_slice(&footer_size.to_le_bytes());\n        writer.write_all(&footer)?;\n")], "quiet", ""),
+    ("c05-notify-only-when-full", "C05", [(Q, 1, "        // Signal that queue has space\n        self.not_full.notify_one();", "        if inner.current_size + priority_item.size >= self.capacity_bytes {\n            self.not_full.notify_one();\n        }")], "fire", "C05-T6"),
+    ("c14-part-check-sum", "C14", [(R, 1, "if offset > data_end || size > data_end - offset {", "if offset + size > data_end {")], "fire", "C14-AUDIT"),
+    ("c20-dir-strict", "C20", [(K, 1, "            self.kmer_dir <= self.kmer_rc", "            self.kmer_dir < self.kmer_rc")], "fire", "C20-K1"),
 ]
